@@ -46,7 +46,7 @@ enum { LC_ACCEPTED = 1, LC_CREATED, LC_CLOSING, LC_CLOSED, LC_DESTROYED };
 struct outmsg { struct outmsg *next; int is_event; uint32_t seq; size_t len; unsigned char data[]; };
 struct sconn {
 	uint32_t magic; int id; qb_ipcs_connection_t *c;
-	int lc; int created_disconnected; int app_refs; int closed_calls; int closed_retry_left; int backoff_left;
+	int lc; int created_disconnected; int app_refs; int client_refs; /* app_refs = all references the application holds; client_refs = those taken by OP_REF */ int closed_calls; int closed_retry_left; int backoff_left;
 	uint32_t ev_seq; struct outmsg *out_head, *out_tail; int timer_armed; int dead;
 	struct sconn *next;
 };
@@ -147,6 +147,7 @@ static int32_t cb_msg(qb_ipcs_connection_t *c, void *data, size_t size)
 		enqueue(sc, 0, seq, n, sc->ev_seq, NULL, 0, TP_RES_MIN);
 		break; }
 	case OP_RATE:
+		if (svc_destroyed) break;
 		qb_ipcs_request_rate_limit(svc, (enum qb_ipcs_rate_limit)q->arg1);
 		if (q->arg1 == QB_IPCS_RATE_OFF || q->arg1 == QB_IPCS_RATE_OFF_2) {
 			/* flow control keeps every client from sending, also the command that would lift it: the
@@ -155,11 +156,12 @@ static int32_t cb_msg(qb_ipcs_connection_t *c, void *data, size_t size)
 		}
 		enqueue(sc, 0, seq, q->arg1, 0, NULL, 0, TP_RES_MIN); break;
 	case OP_DISCONNECT_ME: bed_log(L_SRV_NOTE, (uint64_t)(uintptr_t)c, seq, 0, 0, 0, "disconnect-in-msg"); qb_ipcs_disconnect(c); return 0;
-	case OP_REF: qb_ipcs_connection_ref(c); sc->app_refs++; enqueue(sc, 0, seq, 0, 0, NULL, 0, TP_RES_MIN); break;
-	case OP_UNREF: if (sc->app_refs > 0) { sc->app_refs--; qb_ipcs_connection_unref(c); } enqueue(sc, 0, seq, 0, 0, NULL, 0, TP_RES_MIN); break;
+	case OP_REF: qb_ipcs_connection_ref(c); sc->app_refs++; sc->client_refs++; enqueue(sc, 0, seq, 0, 0, NULL, 0, TP_RES_MIN); break;
+	case OP_UNREF: if (sc->client_refs > 0) { sc->client_refs--; sc->app_refs--; qb_ipcs_connection_unref(c); } enqueue(sc, 0, seq, 0, 0, NULL, 0, TP_RES_MIN); break;
 	case OP_CLOSED_RETRY: sc->closed_retry_left = (int)q->arg1; enqueue(sc, 0, seq, 0, 0, NULL, 0, TP_RES_MIN); break;
 	case OP_BACKOFF: sc->backoff_left = (int)q->arg1; enqueue(sc, 0, seq, 0, 0, NULL, 0, TP_RES_MIN); break;
 	case OP_ITERATE: {
+		if (svc_destroyed) break;
 		int n = 0; qb_ipcs_connection_t *it = qb_ipcs_connection_first_get(svc);
 		while (it) { n++; qb_ipcs_connection_t *nx = qb_ipcs_connection_next_get(svc, it); qb_ipcs_connection_unref(it); it = nx; }
 		enqueue(sc, 0, seq, (uint32_t)n, 0, NULL, 0, TP_RES_MIN); break; }
@@ -214,9 +216,9 @@ static void random_lifecycle_action(struct sconn *sc, const char *where)
 	case 0: if (nheld < 64) { qb_ipcs_connection_ref(sc->c); sc->app_refs++; held[nheld++] = sc; bed_log(L_SRV_NOTE, (uint64_t)(uintptr_t)sc->c, sc->id, 0, 0, 0, "app-ref");
 			qb_loop_timer_add(loop, QB_LOOP_LOW, (1 + vp_u(&srng, 30)) * 1000000ULL, NULL, release_held, &th); } break;
 	case 1: qb_ipcs_connection_ref(sc->c); qb_ipcs_connection_unref(sc->c); break;
-	case 2: if (strcmp(where, "closed") != 0 && sc->lc == LC_CREATED) { bed_log(L_SRV_NOTE, (uint64_t)(uintptr_t)sc->c, sc->id, 0, 0, 0, "disconnect-in-callback"); qb_ipcs_disconnect(sc->c); } break;
-	case 3: { qb_ipcs_connection_t *it = qb_ipcs_connection_first_get(svc); while (it) { qb_ipcs_connection_t *nx = qb_ipcs_connection_next_get(svc, it); qb_ipcs_connection_unref(it); it = nx; } break; }
-	case 4: qb_ipcs_request_rate_limit(svc, (enum qb_ipcs_rate_limit)vp_u(&srng, 5)); qb_ipcs_request_rate_limit(svc, QB_IPCS_RATE_NORMAL); break;
+	case 2: if (strcmp(where, "closed") != 0 && sc->lc == LC_CREATED) { if (strcmp(where, "created") == 0) sc->created_disconnected = 1; bed_log(L_SRV_NOTE, (uint64_t)(uintptr_t)sc->c, sc->id, 0, 0, 0, "disconnect-in-callback"); qb_ipcs_disconnect(sc->c); } break;
+	case 3: if (svc_destroyed) break; { qb_ipcs_connection_t *it = qb_ipcs_connection_first_get(svc); while (it) { qb_ipcs_connection_t *nx = qb_ipcs_connection_next_get(svc, it); qb_ipcs_connection_unref(it); it = nx; } break; }
+	case 4: if (svc_destroyed) break; qb_ipcs_request_rate_limit(svc, (enum qb_ipcs_rate_limit)vp_u(&srng, 5)); qb_ipcs_request_rate_limit(svc, QB_IPCS_RATE_NORMAL); break;
 	case 5: if (sc->lc == LC_CREATED) { enqueue(sc, 1, sc->ev_seq++, 0, 0, NULL, 0, TP_RES_MIN + vp_u(&srng, 200)); flush_outbox(sc); } break;
 	case 6: sc->closed_retry_left = (int)vp_u(&srng, 3); break;
 	case 7: { struct qb_ipcs_connection_stats st; qb_ipcs_connection_stats_get(sc->c, &st, 0); break; }
@@ -238,6 +240,8 @@ static int32_t on_term(int32_t sig, void *data)
 	struct qb_ipcs_stats st; memset(&st, 0, sizeof st); if (!svc_destroyed) qb_ipcs_stats_get(svc, &st, 0);
 	bed_log(L_SRV_FINAL, 0, st.active_connections, count_fds(), count_shm(), nheld, "before-destroy");
 	while (nheld > 0) release_held(NULL);
+	/* references taken on behalf of clients (OP_REF) that they never gave back */
+	for (struct sconn *s2 = conns; s2; s2 = s2->next) while (!s2->dead && s2->client_refs > 0) { s2->client_refs--; s2->app_refs--; qb_ipcs_connection_unref(s2->c); }
 	if (!svc_destroyed) { svc_destroyed = 1; qb_ipcs_destroy(svc); }
 	qb_loop_timer_handle th; qb_loop_timer_add(loop, QB_LOOP_LOW, 30 * 1000000ULL, NULL, final_stop, &th);
 	return 0;
